@@ -623,16 +623,18 @@ _DESC_CACHE = {}
 
 def enc_desc(ctx, fi):
     k = ('e', id(ctx.prog), fi.qualname)
-    if k not in _DESC_CACHE:
-        _DESC_CACHE[k] = EncDesc(ctx.prog, fi)
-    return _DESC_CACHE[k]
+    hit = _DESC_CACHE.get(k)
+    if hit is None or hit[0] is not ctx.prog:
+        hit = _DESC_CACHE[k] = (ctx.prog, EncDesc(ctx.prog, fi))
+    return hit[1]
 
 
 def dec_desc(ctx, fi):
     k = ('d', id(ctx.prog), fi.qualname)
-    if k not in _DESC_CACHE:
-        _DESC_CACHE[k] = DecDesc(ctx.prog, fi)
-    return _DESC_CACHE[k]
+    hit = _DESC_CACHE.get(k)
+    if hit is None or hit[0] is not ctx.prog:
+        hit = _DESC_CACHE[k] = (ctx.prog, DecDesc(ctx.prog, fi))
+    return hit[1]
 
 
 def report_pair(chk, rule, construct, results, site=None):
